@@ -391,7 +391,10 @@ def finish_cmd(pid, st):
     for c in res.contracts:
         if len(CONTRACT_FAILS) < 20:
             CONTRACT_FAILS.append(dict(c, argv=res.argv))
-    if res.fd_leak() and len(FD_LEAKS) < 20:
+    if res.fd_leak() and len(FD_LEAKS) < 20 and not res.crash and \
+            not any(e.get('r') == 'F' for e in res.events):
+        # (runs with an injected fault, crash or interrupt are not judged:
+        # a process that is about to die may leave a descriptor to the kernel)
         FD_LEAKS.append({'argv': res.argv, 'open': res.fd_leak(),
                          'sample': res.summary.get('open_fd_sample')})
     for k, n in res.ccounts.items():
@@ -474,7 +477,10 @@ def run_cold(world, cmd, args, stdin=b'', plan=None, cwd=None, env=None,
     for c in res.contracts:
         if len(CONTRACT_FAILS) < 20:
             CONTRACT_FAILS.append(dict(c, argv=res.argv))
-    if res.fd_leak() and len(FD_LEAKS) < 20:
+    if res.fd_leak() and len(FD_LEAKS) < 20 and not res.crash and \
+            not any(e.get('r') == 'F' for e in res.events):
+        # (runs with an injected fault, crash or interrupt are not judged:
+        # a process that is about to die may leave a descriptor to the kernel)
         FD_LEAKS.append({'argv': res.argv, 'open': res.fd_leak(),
                          'sample': res.summary.get('open_fd_sample')})
     for k, n in res.ccounts.items():
